@@ -2,4 +2,4 @@ From Coq Require Extraction.
 From Coq Require Import ExtrOcamlBasic.
 From Spl Require Import Judge.Run.
 Extraction Language OCaml.
-Extraction "extracted/judge.ml" run.
+Extraction "extracted/judge.ml" judge_run.
